@@ -369,3 +369,65 @@ func (u *Unit) LoopCollections() []string {
 	}
 	return out
 }
+
+// FlagRefine strengthens a path condition that knows a boolean *flag* to be true: a local all of whose assignments
+// store the constants true or false is true only if one of the `= true` assignments was the last one executed, so the
+// condition under which one of them is reached holds as well (as far as it is still valid: the conditions of those
+// sites are taken with the usual staleness filter relative to themselves, and a flag that is assigned inside a loop
+// that also contains the site is left alone). `found := false; for … { if a == b { found = true } }; if found { S }`
+// gives S the knowledge "a == b held for some element".
+func (u *Unit) FlagRefine(pc *flow.F, at *flow.Site) *flow.F {
+	atoms := map[string]*flow.F{}
+	pc.Atoms(atoms)
+	for k, a := range atoms {
+		if a.Cmp != nil {
+			continue
+		}
+		var obj types.Object
+		for _, s := range u.Sites {
+			if s.Kind == flow.SStore && s.Local != nil && !s.Index {
+				if id, ok := ast.Unparen(s.LHS).(*ast.Ident); ok && u.C.Term(id) == k {
+					obj = s.Local
+				}
+			}
+		}
+		if obj == nil {
+			continue
+		}
+		if b, ok := obj.Type().Underlying().(*types.Basic); !ok || b.Kind() != types.Bool {
+			continue
+		}
+		if res := flow.Implies(pc, a); !res.Holds || res.Undecided != "" {
+			continue
+		}
+		var trues []*flow.F
+		okFlag := true
+		for _, s := range u.Sites {
+			if s.Kind != flow.SStore || s.Local != obj || s.Index {
+				continue
+			}
+			if s.RHS == nil {
+				if s.Tuple == nil && s.Tok == token.DEFINE {
+					continue // `var flag bool`: false
+				}
+				okFlag = false
+				break
+			}
+			switch u.C.ConstOf(s.RHS) {
+			case "true":
+				if s == at {
+					okFlag = false
+				}
+				trues = append(trues, u.SitePC(s))
+			case "false":
+			default:
+				okFlag = false
+			}
+		}
+		if !okFlag || len(trues) == 0 {
+			continue
+		}
+		pc = flow.And(pc, flow.Or(trues...))
+	}
+	return pc
+}
